@@ -497,6 +497,8 @@ fn gen_bridge(mut input: ItemMod) -> ItemMod {
         }
 
         Item::Impl(i) => {
+            // impl blocks may carry inheritable attributes (`abi_rename`, `attr`), which only diplomat-tool reads
+            let _attrs = AttributeInfo::extract(&mut i.attrs);
             for item in &mut i.items {
                 if let syn::ImplItem::Fn(ref mut m) = *item {
                     let info = AttributeInfo::extract(&mut m.attrs);
